@@ -283,6 +283,9 @@ class CatalogEntry:
         status = CatalogEntryStatus.fromByte(data[0])
         if status == CatalogEntryStatus.NEVER_USED:
             return CatalogEntry(status)
+        elif status == CatalogEntryStatus.DELETED:
+            # the blocks of a deleted entry are not its own any more
+            return CatalogEntry(status, data=CatalogEntryRecord.fromBytes(data))
         else:
             record = CatalogEntryRecord.fromBytes(data)
             usage = CatalogEntryUsage.fromBlockAllocationTable(
